@@ -102,6 +102,8 @@ pub struct Case {
     /// `Clone::clone` of an element is a scheduling point of its own
     pub clonepoint: bool,
     pub rawskip: bool,
+    /// `dropwait <v> <t>`
+    pub dropwait: Option<(u64, usize)>,
     /// `viafrom`: the iterator is built with the `From` conversion (`ConIterOfX::from(source)`) instead of `into_con_iter`
     pub viafrom: bool,
     /// `fat <bytes>`: elements are <bytes> large (128 or 65536; slice, vec, array, iter; `copied()` over a slice)
@@ -418,6 +420,7 @@ struct Partial {
     inpanic: Vec<usize>,
     clonepoint: bool,
     rawskip: bool,
+    dropwait: Option<(u64, usize)>,
     viafrom: bool,
     fat: usize,
     nested: bool,
@@ -485,6 +488,7 @@ fn finish(p: Partial) -> Result<Case, String> {
         inpanic: p.inpanic,
         clonepoint: p.clonepoint,
         rawskip: p.rawskip,
+        dropwait: p.dropwait,
         viafrom: p.viafrom,
         fat: p.fat,
         nested: p.nested,
@@ -576,6 +580,12 @@ pub fn parse_cases(text: &str) -> Result<Vec<Case>, String> {
             }
             "rawskip" => {
                 p.rawskip = true;
+            }
+            "dropwait" => {
+                if toks.len() != 3 {
+                    return Err(format!("line {ln}: dropwait <v> <t>"));
+                }
+                p.dropwait = Some((num::<u64>(toks[1], "dropwait value", ln)?, num::<usize>(toks[2], "dropwait thread", ln)?));
             }
             "viafrom" => {
                 p.viafrom = true;
